@@ -159,25 +159,30 @@ def _eligible(fn: ast.AST) -> Optional[Tuple[List[ast.stmt], ast.expr]]:
         if not (isinstance(d, ast.Name) and d.id in ("staticmethod", "classmethod")):
             return None
     body = [s for i, s in enumerate(fn.body) if not (i == 0 and _doc(s))]  # type: ignore[attr-defined]
-    if not body or not isinstance(body[-1], ast.Return) or body[-1].value is None:
+    if not body:
         return None
-    pre = body[:-1]
+    if isinstance(body[-1], ast.Return) and body[-1].value is not None:
+        pre, ret, last = body[:-1], body[-1].value, body[-1]
+    else:
+        # a procedure (returns nothing: mutates an argument, raises, calls on): its statements are spliced in, the call yields None
+        last = body[-1] if isinstance(body[-1], ast.Return) else None
+        pre, ret = (body[:-1] if last is not None else body), ast.Constant(value=None)
+        if not pre:
+            return None
+    params = {x.arg for x in a.args + a.kwonlyargs}
     for s in pre:
-        if isinstance(s, _SIMPLE):
-            continue
-        if isinstance(s, ast.Expr) and isinstance(s.value, ast.Call):
-            continue
-        if isinstance(s, ast.If) and not s.orelse and s.body and isinstance(s.body[-1], ast.Raise):
-            continue
-        return None
+        if isinstance(s, (ast.FunctionDef, ast.AsyncFunctionDef, ast.ClassDef, ast.Global, ast.Nonlocal)):
+            return None
+        if any(isinstance(n, ast.Name) and isinstance(n.ctx, (ast.Store, ast.Del)) and n.id in params for n in ast.walk(s)):
+            return None  # a parameter that is re-bound cannot be substituted by its argument
     for n in ast.walk(fn):
-        if n is not fn and isinstance(n, (ast.FunctionDef, ast.AsyncFunctionDef, ast.Lambda, ast.Yield, ast.YieldFrom, ast.Return)) and n is not body[-1]:
+        if n is not fn and isinstance(n, (ast.FunctionDef, ast.AsyncFunctionDef, ast.Lambda, ast.Yield, ast.YieldFrom, ast.Return)) and n is not last:
             return None
         if isinstance(n, ast.Name) and n.id == fn.name:  # type: ignore[attr-defined]
             return None
         if isinstance(n, ast.Attribute) and n.attr == fn.name and isinstance(n.value, ast.Name) and n.value.id in ("self", "cls"):  # type: ignore[attr-defined]
             return None
-    return pre, body[-1].value
+    return pre, ret
 
 
 def _stored_names(nodes: List[ast.AST]) -> Set[str]:
@@ -334,6 +339,10 @@ def _inline_into(host: ast.AST, hcls: Optional[ast.ClassDef], helpers) -> int:
             sub = _Subst(m, rename)
             new_pre = [ast.fix_missing_locations(ast.copy_location(sub.visit(copy.deepcopy(s)), st)) for s in pre]
             new_ret = sub.visit(copy.deepcopy(ret))
+            if isinstance(st, ast.Expr) and st.value is call and isinstance(new_ret, ast.Constant) and new_ret.value is None and new_pre:
+                body[i:i + 1] = new_pre  # a procedure call statement is replaced by the procedure's statements
+                n += 1
+                continue
             _replace(st, call, new_ret)
             ast.fix_missing_locations(st)
             body[i:i] = new_pre
